@@ -16,6 +16,7 @@ type GenCfg struct {
 	Paradigms bool // draw native paradigm subsets and chunk plans (C04)
 	StreamBr  bool // allow stream branch conditions
 	SubModes  []string
+	WfPass    bool // allow passthrough nodes in workflows
 	InKeys    []string // known keys of a map typed graph input (top level: InputKeys)
 	sub       bool
 }
@@ -294,6 +295,12 @@ func genGraph(t *rapid.T, mode string, cfg GenCfg) *Spec {
 			b.Stream = pct(t, 40, "streamBranch")
 		}
 		sp.Branches = append(sp.Branches, b)
+		if pct(t, 20, "secondBranch") {
+			// a second branch of the same node over the same targets: a target is skipped only when no
+			// branch selects it
+			b2 := Branch{From: from, Targets: append([]string(nil), ts...), Multi: pct(t, 50, "multi2"), Salt: rapid.IntRange(8, 15).Draw(t, "salt2"), Stream: b.Stream}
+			sp.Branches = append(sp.Branches, b2)
+		}
 	}
 	_ = endViaBranch
 	// extra connections: fan-in into map typed nodes, back edges, joins after branches
@@ -463,14 +470,16 @@ func genWorkflow(t *rapid.T, cfg GenCfg) *Spec {
 				sub.InKeys = nil
 				sub.sub = true
 				node.Sub = GenSpec(t, pick(t, []string{"pregel", "dag", "workflow"}, "subMode"), sub)
-			} else if pct(t, 8, "wfPass") {
+			} else if cfg.WfPass && pct(t, 8, "wfPass") {
+				// passthrough typing by inference ignores field mappings on the successor edge and depends
+				// on map iteration order in Workflow.compile (see DESIGN.md findings); off by default
 				node.Kind = "pass"
 			}
 		}
 		if node.Kind == "lambda" {
 			decorate(t, &node, cfg)
 		}
-		if pct(t, 15, "outputKey") {
+		if node.Kind != "pass" && pct(t, 15, "outputKey") {
 			node.OutputKey = key
 		}
 		sp.Nodes = append(sp.Nodes, node)
@@ -575,12 +584,25 @@ func genWorkflow(t *rapid.T, cfg GenCfg) *Spec {
 				cands = append(cands, End)
 			}
 			if len(cands) == 0 {
-				sp.Edges = append(sp.Edges, Edge{From: from, To: pb.ts[0], NoData: true})
+				// no second target: turn the branch into a plain control dependency
+				found := false
+				for ei := range sp.Edges {
+					if sp.Edges[ei].From == from && sp.Edges[ei].To == pb.ts[0] {
+						sp.Edges[ei].NoControl = false
+						found = true
+					}
+				}
+				if !found {
+					sp.Edges = append(sp.Edges, Edge{From: from, To: pb.ts[0], NoData: true})
+				}
 				continue
 			}
 			pb.ts = append(pb.ts, pick(t, cands, "branchSecond"))
 		}
 		sp.Branches = append(sp.Branches, Branch{From: from, Targets: pb.ts, Multi: pct(t, 35, "multi"), Salt: rapid.IntRange(0, 7).Draw(t, "salt")})
+		if pct(t, 20, "secondBranch") {
+			sp.Branches = append(sp.Branches, Branch{From: from, Targets: append([]string(nil), pb.ts...), Multi: pct(t, 50, "multi2"), Salt: rapid.IntRange(8, 15).Draw(t, "salt2")})
+		}
 	}
 	// compile needs a control edge out of START and one into END
 	hasStart, hasEnd := false, false
@@ -626,12 +648,27 @@ func genWorkflow(t *rapid.T, cfg GenCfg) *Spec {
 			}
 		}
 		if !fixed {
-			for ei := range sp.Edges {
-				if sp.Edges[ei].From == Start && sp.Edges[ei].NoControl {
-					sp.Edges[ei].NoControl = false
-					break
+			// every node is a target of a START branch: replace those branches by plain control dependencies
+			var keep []Branch
+			for _, b := range sp.Branches {
+				if b.From != Start {
+					keep = append(keep, b)
+					continue
+				}
+				for _, x := range b.Targets {
+					found := false
+					for ei := range sp.Edges {
+						if sp.Edges[ei].From == Start && sp.Edges[ei].To == x {
+							sp.Edges[ei].NoControl = false
+							found = true
+						}
+					}
+					if !found {
+						sp.Edges = append(sp.Edges, Edge{From: Start, To: x, NoData: true})
+					}
 				}
 			}
+			sp.Branches = keep
 		}
 	}
 	_ = hasEnd
